@@ -325,6 +325,200 @@ def rejection_case(op, ka, kb):
                 max_forks_per_site=4)
 
 
+class _StopAfter(Exception):
+    """ends a helper run after the requests the goals are about (the cut is stated in the case)"""
+
+
+class _OutlineStub:
+    """boundary of an ARBITRARY operand: its measure is an affine function of the parameter row
+    (base + slope*t, both symbolic), points are fresh symbols; every request is recorded"""
+
+    def __init__(self, env, tag, X, log, stop_after_grid=None):
+        self.env, self.tag, self.space, self.log = env, tag, X, log
+        self.base = env.tensor(tag + "_base", ())
+        self.slope = env.tensor(tag + "_slope", ())
+        self.calls = 0
+        self.grids = 0
+        self.stop_after_grid = stop_after_grid
+
+    def measure(self, t):
+        return self.base + self.slope * t
+
+    def volume(self, params=Points.empty(), device="cpu"):
+        t = params.coordinates["t"]
+        self.log.append(("volume", self.tag, t))
+        return self.measure(t)
+
+    def _points(self, kind, n, params):
+        self.calls += 1
+        t = params.coordinates["t"]
+        self.log.append((kind, self.tag, int(n), t))
+        return Points(self.env.tensor("%s_%s%d" % (self.tag, kind, self.calls), (int(n), 2)), self.space)
+
+    def sample_random_uniform(self, n=None, d=None, params=Points.empty(), device="cpu"):
+        return self._points("rand", n, params)
+
+    def sample_grid(self, n=None, d=None, params=Points.empty(), device="cpu"):
+        self.grids += 1
+        if self.stop_after_grid is not None and self.grids > self.stop_after_grid:
+            self.log.append(("grid", self.tag, int(n), params.coordinates["t"]))
+            if self.tag == "ob":
+                raise _StopAfter()
+            return Points(self.env.const([[0.0, 0.0]] * int(n)), self.space)
+        return self._points("grid", n, params)
+
+
+class _OperandStub:
+    def __init__(self, outline):
+        self.boundary = outline
+
+
+class _MainStub:
+    """the combined domain: measure affine in the row, membership answers free symbols (or all yes)"""
+
+    def __init__(self, env, X, log, accept_all):
+        self.env, self.space, self.dim, self.log, self.accept_all = env, X, 1, log, accept_all
+        self.base = env.tensor("m_base", ())
+        self.slope = env.tensor("m_slope", ())
+        self.calls = 0
+        self.masks = []
+
+    def measure(self, t):
+        return self.base + self.slope * t
+
+    def volume(self, params=Points.empty(), device="cpu"):
+        return self.measure(params.coordinates["t"])
+
+    def _repeat_params(self, n, params):
+        return n, params
+
+    def _contains(self, points, params=Points.empty()):
+        self.calls += 1
+        k = len(points)
+        if self.accept_all:
+            return torch.ones((k, 1), dtype=torch.bool)
+        m = self.env.tensor("m_acc%d" % self.calls, (k, 1))
+        self.masks.append(m)
+        if self.calls == 2 and self.env.symbolic:
+            # stated assumption (placed before the code it constrains): at least one point of the first two
+            # grids lies on the combined boundary -- otherwise the surface estimate is 0 and the real code
+            # stops with OverflowError (int(inf)), which is outside this case's claim
+            L = self.env.L
+            self.env.assume(L.Or(*[L.gt(v, 0) for mm in self.masks for v in SH.elems(self.env, mm)]))
+        return m > 0
+
+
+def boolean_boundary_random_case():
+    """`_random_points_boundary` (boundaries of unions / cuts / intersections) on ARBITRARY operands whose
+    outline measures are affine functions of the parameter row: the batch asked of each outline FOR ROW i
+    must be int(n*|outline|(t_i)/|boundary|(t_i))+1 with the measures OF ROW i and the parameter row i
+    (law: the proposals of a row are split between the two outlines in proportion to that row's measures)"""
+    cname = "boolean_boundary/random/share_of_its_row/k2"
+
+    def body(env):
+        from torchphysics.problem.domains.domainoperations import sampler_helper as HP
+        L = env.L
+        X = tp.spaces.R2("x")
+        log = []
+        oa, ob = _OutlineStub(env, "oa", X, log), _OutlineStub(env, "ob", X, log)
+        main = _MainStub(env, X, log, accept_all=True)
+        P, rows = SH.params(env, [("t", 1)], 2)
+        ts = [r["t"][0] for r in rows]
+        meas = []
+        for t in ts:
+            va = [SH.elems(env, o.base)[0] + SH.elems(env, o.slope)[0] * t for o in (oa, ob, main)]
+            meas.append(va)
+            # stated bound: each outline is at most as long as the whole boundary (batches of 1..3 points)
+            env.assume(L.And(L.gt(va[0], 0), L.gt(va[1], 0), L.gt(va[2], 0), L.le(va[0], va[2]), L.le(va[1], va[2])))
+        env.assume(L.ne(ts[0], ts[1]))
+        n = 2
+        res = HP._random_points_boundary(main, _OperandStub(oa), _OperandStub(ob), n, P, "cpu")
+        reqs = [(e[1], e[2], SH.elems(env, e[3])[0]) for e in log if e[0] == "rand"]
+        return dict(reqs=reqs, meas=meas, ts=ts, n=n, rows=len(res))
+
+    def goals(o, L, env):
+        n = o["n"]
+        yield "n_rows", o["rows"] == 2 * n
+        # with every proposal accepted a row needs one request to A and, if that batch was short, requests to B, A, ...
+        i, got, per_row = 0, 0, [[], []]
+        for tag, k, t in o["reqs"]:
+            if i < 2:
+                per_row[i].append((tag, k, t))
+                got += k
+                if got >= n:
+                    i, got = i + 1, 0
+        yield "every_row_served", i == 2
+        for i in range(2):
+            a, b, m = o["meas"][i]
+            for j, (tag, k, t) in enumerate(per_row[i]):
+                yield "request_carries_its_parameter_row[row%d,req%d]" % (i, j), L.eq(t, o["ts"][i])
+                yield "outlines_alternate[row%d,req%d]" % (i, j), tag == ("oa", "ob")[j % 2]
+                v = a if tag == "oa" else b
+                yield "batch_is_share_of_its_row[row%d,req%d]" % (i, j), L.And(L.le((k - 1) * m, n * v), L.lt(n * v, k * m))
+
+    return Case(cname, body, goals, family="boolean_boundary/random", max_paths=60, max_forks_per_site=8, int_hi=4)
+
+
+def boolean_boundary_grid_case():
+    """`_boundary_grid_with_n` on ARBITRARY operands (symbolic outline measures, free membership answers for
+    the first grids): the rescaled grid sizes are int(n*|A|/S)+1 and max(int(n*|B|/S),1) with the surface
+    estimate S = |A|*a_ok/n + |B|*b_ok/n built from BOTH outlines' surviving fractions.
+    Cut: the run ends when the second pair of grids has been requested (stated as outside the claim)"""
+    cname = "boolean_boundary/grid/surface_estimate/n2"
+
+    def body(env):
+        from torchphysics.problem.domains.domainoperations import sampler_helper as HP
+        L = env.L
+        X = tp.spaces.R2("x")
+        log = []
+        oa, ob = _OutlineStub(env, "oa", X, log, stop_after_grid=1), _OutlineStub(env, "ob", X, log, stop_after_grid=1)
+        main = _MainStub(env, X, log, accept_all=False)
+        P, rows = SH.params(env, [("t", 1)], 1)
+        t = rows[0]["t"][0]
+        a, b = [SH.elems(env, o.base)[0] + SH.elems(env, o.slope)[0] * t for o in (oa, ob)]
+        # stated bound: outline measures within a factor 2 of each other (rescaled grids of at most 5 points)
+        env.assume(L.And(L.gt(a, 0), L.gt(b, 0), L.le(a, 2 * b), L.le(b, 2 * a)))
+        n = 2
+        stopped = False
+        try:
+            HP._boundary_grid_with_n(main, _OperandStub(oa), _OperandStub(ob), n, P, "cpu")
+        except _StopAfter:
+            stopped = True
+        masks = [[(L.gt(v, 0) if env.symbolic else bool(v > 0)) for v in SH.elems(env, m)] for m in main.masks[:2]]
+        grids = [[e[1], e[2]] for e in log if e[0] == "grid"]
+        return dict(masks=masks, grids=grids, a=a, b=b, n=n, stopped=stopped)
+
+    def goals(o, L, env):
+        n, a, b = o["n"], o["a"], o["b"]
+        g = o["grids"]
+        yield "first_grids_have_n_points", [list(x) for x in g[:2]] == [["oa", n], ["ob", n]]
+        if not o["stopped"]:
+            return
+        yield "rescaled_grids_requested", len(g) == 4 and g[2][0] == "oa" and g[3][0] == "ob"
+        if len(g) != 4:
+            return
+        sa, sb = g[2][1], g[3][1]
+
+        def count(ms, c):  # formula: exactly c answers are yes
+            import itertools
+            return L.Or(*[L.And(*[(m if i in idx else L.Not(m)) for i, m in enumerate(ms)])
+                          for idx in itertools.combinations(range(len(ms)), c)])
+
+        for ca in range(n + 1):
+            for cb in range(n + 1):
+                if ca + cb in (0, n):
+                    continue
+                S = a * ca + b * cb  # n * surface estimate
+                hyp = L.And(count(o["masks"][0], ca), count(o["masks"][1], cb))
+                yield "scaled_a[%d,%d]" % (ca, cb), L.Implies(hyp, L.And(L.le((sa - 1) * S, n * n * a), L.lt(n * n * a, sa * S)))
+                yield "scaled_b[%d,%d]" % (ca, cb), L.Implies(hyp, L.Or(
+                    L.And(L.le(sb * S, n * n * b), L.lt(n * n * b, (sb + 1) * S)),
+                    L.And(sb == 1, L.lt(n * n * b, S))))
+
+    return Case(cname, body, goals, family="boolean_boundary/grid", max_paths=80, max_forks_per_site=8, int_hi=6)
+
+
+
 def _rand_recorder():
     """replay helper: records the values returned by rand / rand_like, call by call"""
     calls = []
@@ -689,6 +883,8 @@ def cases(tier):
     if not quick:
         cs.append(rejection_case("cut", "Circle", "Parallelogram"))
         cs.append(rejection_case("intersection", "Parallelogram", "Circle"))
+    cs.append(boolean_boundary_random_case())
+    cs.append(boolean_boundary_grid_case())
     cs.append(product_law_case())
     cs.append(product_law_case(translated=True))
     cs.append(lhs_rows_case("Interval[t]", lambda env: SH.interval(env, dep="t")))
